@@ -1,4 +1,5 @@
-import sys; sys.path.insert(0,'/tmp/wp_mpsc2/lean_m/MayVerif/Proof/Queue/Mpsc/gen')
+import os
+import sys; sys.path.insert(0,os.path.dirname(os.path.abspath(__file__)))
 from gen_p import write
 def ind(s,n=2): return ''.join(' '*n+l+'\n' for l in s.rstrip('\n').split('\n'))
 PRE0='''have ht0 : t = 0 := h.cons0 t (by show isCons0 (pcs t) = true; rw [hpc]; rfl)
